@@ -145,3 +145,19 @@ reg("C03", "exploration", "E1",
     "late combiner, nested workflow): per node the multiset of job inputs (provenance terms from the execution log) and the "
     "workflow outputs are compared with vt/ref/wfref.py.",
     "Order between independent upstream states is not fixed by the statement (multiset comparison there); splitting over an upstream family is outside the reference language.")
+
+reg("C04", "exploration", "E1",
+    "bounded exhaustive enumeration of nested lists x container dimensions x splitter contexts against a depth-first flatten reference",
+    "Every nested list of uniform depth d<=2 with all inner lengths 0-3 and d=3 with lengths 0-2 (thorough: d=3 lengths 0-3, 621k "
+    "nests), container dimension 1..d, alone and inside [x,b], [b,x], (x,b) contexts, at the State seam and through the public "
+    "split(container_ndim=...) API: job i must receive exactly the i-th element found at depth n in depth-first order (no loss, "
+    "no duplicates), checked on states_val, outputs and the execution log.",
+    "Pairing an n-dimensional field with a flat list of equal element count may be rejected (statement silent); identical elements may share one cached execution.")
+reg("C05", "exploration", "E1",
+    "bounded exhaustive enumeration of equivalent splitter spellings and of single perturbations of valid split/combine requests",
+    "Every splitter tree over k<=3 (4) fields with <=2 one-element list/tuple wrappers inserted anywhere and every same-type "
+    "re-bracketing must give the same ordered job inputs as its normal form (State seam, upstream-state seam, public API, second "
+    "workflow node incl. the keyword form); every ill-formed request obtained by one perturbation (field twice, split again, value "
+    "missing, stray value, combiner not split, combine without split) in task / node contexts must raise before any job ran "
+    "(empty execution log, no job directory).",
+    "Error types are not compared; the implicit wrapper workflow directory is not a job.")
